@@ -12,6 +12,12 @@ import (
 
 var sfoMagic = [...]byte{0, 'P', 'S', 'F'}
 
+// Limits for what is read into memory: real keys are short identifiers, real values are at most few KiB.
+const (
+	sfoMaxKeyLen   = 512
+	sfoMaxValueLen = 64 << 10
+)
+
 type sfoHeader struct {
 	Magic             [4]byte
 	Version           [4]byte
@@ -66,7 +72,7 @@ func sfoField(f afero.File, field string) (string, error) {
 			return "", fmt.Errorf("failed to seek to key at %d: %w", keyOff, err)
 		}
 
-		br.Reset(f)
+		br.Reset(io.LimitReader(f, sfoMaxKeyLen))
 		key, err := br.ReadBytes(0)
 		if err != nil {
 			return "", fmt.Errorf("failed to read key at %d: %w", keyOff, err)
@@ -80,6 +86,10 @@ func sfoField(f afero.File, field string) (string, error) {
 
 	if idxEntry == nil {
 		return "", fmt.Errorf("field was not found")
+	}
+
+	if idxEntry.DataLen > sfoMaxValueLen {
+		return "", fmt.Errorf("value is too long (%d bytes)", idxEntry.DataLen)
 	}
 
 	off := int64(hdr.DataTableStart) + int64(idxEntry.DataOffset)
